@@ -693,6 +693,18 @@ class Step(Node):
         # so the delete fires `step_need_count_del` like any other delete
         # instead of being silently skipped by `REPLACE`'s implicit conflict-delete
         # (which never fires delete triggers).
+        # A step can be created again while its command runs: the step that created it was run
+        # again (which detaches the running step) and now declares it differently,
+        # so it is not recycled as it is (see `Trellis.create`).
+        # The command keeps running, as for any detached running step,
+        # and the step stays RUNNING (with its hold counter) until the command ends:
+        # a PENDING row would be dispatched a second time while the first command still runs,
+        # and the outcome of that first command would be recorded on a step that is not running.
+        row = self.db.execute(
+            "SELECT state, _holding FROM step WHERE node = :node", {"node": self.i}
+        ).fetchone()
+        running = row is not None and row[0] == StepState.RUNNING.value
+        holding = row[1] if running else 0
         self.db.execute("DELETE FROM step WHERE node = :node", {"node": self.i})
 
         # The `step_hash`/`step_outcome` satellite rows are untouched
@@ -732,14 +744,15 @@ class Step(Node):
         self.db.execute(
             "INSERT INTO step "
             "(node, state, need, duration, shell, _safe, _check_safe, _safe_ignoring_hold, "
-            "_implied_need, _check_after, _has_hash) "
+            "_implied_need, _check_after, _has_hash, _holding) "
             "VALUES(:node, :state, :need, :duration, :shell, :safe, :check_safe, :safe, "
             ":implied_need, 1, "
-            "(SELECT EXISTS(SELECT 1 FROM step_hash WHERE node = :node)))",
+            "(SELECT EXISTS(SELECT 1 FROM step_hash WHERE node = :node)), :holding)",
             {
                 "node": self.i,
                 "need": need.value,
-                "state": StepState.PENDING.value,
+                "state": (StepState.RUNNING if running else StepState.PENDING).value,
+                "holding": holding,
                 "duration": 1.0 if duration is None else duration,
                 "shell": int(shell),
                 "safe": int(_safe),
